@@ -187,6 +187,17 @@ if __name__ == "__main__":
         r = run(*mm)
         print(r[0], r[1], r[2], flush=True)
         out.append(r)
+        # keep the latest verdict per mutant (the table of DESIGN.md section 0.5 is generated from it)
+        logp = "/verif/seeded/hand-mutants.json"
+        try:
+            log = json.load(open(logp))
+        except Exception:
+            log = {}
+        subs = sorted({k.split()[0][4:] for _, _, _, keys in r[2] for k in keys})
+        first = [k.split(" :: ")[0].split("key=")[-1] for _, _, _, keys in r[2] for k in keys[:1]]
+        log[r[0]] = {"file": mm[1], "expected": mm[4], "verdict": r[1] if mm[4] else "no property expected", "sub_checks": subs, "first_key": first[:1],
+                     "exit": {p_: rc for p_, rc, _, _ in r[2]}}
+        json.dump(log, open(logp, "w"), indent=1, sort_keys=True)
     subprocess.run(["git", "-C", "/repo", "checkout", "--", "."])
     missed = [r[0] for r in out if r[1] != "caught"]
     print("MISSED:", missed)
